@@ -82,8 +82,10 @@ where
             .merge_staged_commit(&self.provider, staged_commit)
             .map_err(|_e| Error::Message("Failed to merge staged commit".to_string()))?;
 
-        // Check if the local member was removed by this commit
-        if mls_group.own_leaf().is_none() {
+        // Check if the local member was removed by this commit. The group is no longer
+        // active then; looking at the own leaf alone is not enough because a member added by
+        // the same commit can occupy the freed leaf.
+        if !mls_group.is_active() || mls_group.own_leaf().is_none() {
             return self.handle_local_member_eviction(&group_id, event);
         }
 
